@@ -24,9 +24,11 @@ package c17
 
 import (
 	"context"
+	"encoding/json"
 	"fmt"
 	"os"
 	"os/exec"
+	"path/filepath"
 	"runtime/pprof"
 	"sort"
 	"strings"
@@ -202,6 +204,26 @@ func TestC17(t *testing.T) {
 		col.Count("corpus-or-replay")
 	}
 	if os.Getenv("VERIF_REPLAY") == "" {
+		// every service the translator extracts must have a scenario (the meta file is written by bin/c17-translate)
+		if data, err := os.ReadFile(filepath.Join("..", "..", "build", "c17_meta.json")); err == nil {
+			var meta []struct {
+				Name    string   `json:"name"`
+				Entries []string `json:"entries"`
+			}
+			if json.Unmarshal(data, &meta) == nil {
+				covered := map[string]bool{}
+				for _, sc := range scenarios {
+					covered[sc.service] = true
+				}
+				for _, m := range meta {
+					if !covered[m.Name] {
+						t.Errorf("extracted service %s (%d entries) has no race scenario in harness/c17", m.Name, len(m.Entries))
+					}
+				}
+			}
+		} else {
+			col.Note("build/c17_meta.json not found: scenario coverage of the extracted services not checked")
+		}
 		names := make([]string, 0, len(scenarios))
 		for n := range scenarios {
 			names = append(names, n)
